@@ -42,7 +42,7 @@ CLAIMED = {
    text="End-to-end round trips through real b3sum for path swarms rich in the characters that matter, plus in-process sweeps: for each path the printed line must parse back to exactly that path and hash (or be rejected if unrepresentable), and every single-edit mutation must either be rejected or parse to what the documented format says - never panic. Found and fixed: --tag lines with a double space in the path did not round-trip; a 64-byte hash field ending in a multi-byte character panicked the parser.",
    note="'For arbitrary text' is a statement about a pure function: the simulator only reaches the neighbourhood of real records that storage damage produces (single edits, byte-preserving overwrites, truncations).", ref="DESIGN.md §3 C13"),
  "C07": dict(level="exploration", tech="deterministic simulation of the memory environment: seeded plans place every caller-visible buffer flush against PROT_NONE pages (GuardAlloc), call every kernel flavour through register-sentinel trampolines (SysV and Win64), fatal signals are captured as crash records and replayed in child processes; shrinking and exact replay",
-   text="Seeded search over direct kernel calls (unix asm, windows-gnu asm via a Win64 trampoline, C intrinsics, portable C, the crate's own kernels) and over C / Rust API histories, with inputs, input-pointer arrays, keys, blocks, outputs and hasher objects guard-placed; monitors: SIGSEGV/SIGBUS on guard pages, canaries, callee-saved registers / rsp / DF. One genuine finding is listed (not repaired): the AVX2/AVX-512 assembly tail paths of hash_many read 16-48 bytes past the end of their first (and third) input.",
+   text="Seeded search over direct kernel calls (unix asm, windows-gnu asm via a Win64 trampoline, C intrinsics, portable C, the crate's own kernels) and over C / Rust API histories, with inputs, input-pointer arrays, keys, blocks, outputs and hasher objects guard-placed; monitors: SIGSEGV/SIGBUS on guard pages, canaries, callee-saved registers / rsp / DF at four stack alignments; the same C API histories are replayed against an ASan+UBSan build of the C library, and (thorough) the unsafe Rust intrinsics run under Miri. One genuine finding is listed (not repaired): the AVX2/AVX-512 assembly tail paths of hash_many read 16-48 bytes past the end of their first (and third) input.",
    note="Monitors observe seeded, replayable executions; reads inside the caller's own larger allocation are invisible unless the guard page is adjacent; UB without a memory/register/signal trace is not seen. MSVC .asm, NEON, wasm32 are outside the claim.", ref="DESIGN.md §3 C07"),
 }
 NA = {
